@@ -87,6 +87,23 @@ class Flattener:
                 if rets and all(norm(r) == a or (isinstance(r, ast.Subscript) and norm(r.slice) == f'{a}.Name' and
                                                  norm(r.value).endswith('OutputParameterDict')) for r in rets):
                     self.identity_helpers.add(n.name)
+        # local names bound exactly once to an f-string / a unit label: rendered inline (`x = f'{v:10.1f} {u}'; f.write(f'... {x}')`)
+        counts: Dict[str, List[ast.AST]] = {}
+        for n in ast.walk(fn.node):
+            if isinstance(n, ast.Assign) and len(n.targets) == 1 and isinstance(n.targets[0], ast.Name):
+                counts.setdefault(n.targets[0].id, []).append(n.value)
+            elif isinstance(n, (ast.AugAssign, ast.AnnAssign, ast.For, ast.NamedExpr)):
+                for x in ast.walk(n.target):
+                    if isinstance(x, ast.Name):
+                        counts.setdefault(x.id, []).extend([None, None])
+        self.local_strs: Dict[str, ast.AST] = {}
+        for k, vs in counts.items():
+            if len(vs) == 1 and vs[0] is not None:
+                v = vs[0]
+                d = dotted_name(v) or ''
+                if isinstance(v, ast.JoinedStr) or d.endswith('Units.value'):
+                    self.local_strs[k] = v
+        self._inlining: set = set()
 
     def canon(self, text: str) -> str:
         parts = text.split('.')
@@ -137,13 +154,20 @@ class Flattener:
                 return self.fmt(e.func.value.value, e.args, e.keywords)
             if d == 'str' and len(e.args) == 1:
                 return self.hole(e.args[0], '')
-            if d and d.endswith('_field_label') and len(e.args) == 2:
-                name = self.fold_str(e.args[0])
-                if name is not None and isinstance(e.args[1], ast.Constant):
-                    w = e.args[1].value
-                    return [Seg('label', f'{name}:{" " * (w - len(name) - 1)}')]
+            lab = self._label_call(e)
+            if lab is not None:
+                return lab
             return self.hole(e, '')
         return self.hole(e, '')
+
+    def _label_call(self, e: ast.Call) -> Optional[List[Seg]]:
+        d = dotted_name(e.func)
+        if d and d.endswith('_field_label') and len(e.args) == 2:
+            name = self.fold_str(e.args[0])
+            if name is not None and isinstance(e.args[1], ast.Constant):
+                w = e.args[1].value
+                return [Seg('label', f'{name}:{" " * (w - len(name) - 1)}')]
+        return None
 
     def fold_str(self, n: ast.AST) -> Optional[str]:
         if isinstance(n, ast.Constant) and isinstance(n.value, str):
@@ -187,6 +211,14 @@ class Flattener:
 
     def hole(self, v: ast.AST, spec: str) -> List[Seg]:
         txt = norm(v)
+        if isinstance(v, ast.Name) and not spec and v.id in self.consts:
+            return [Seg('lit', self.consts[v.id])]
+        if isinstance(v, ast.Name) and not spec and v.id in self.local_strs and v.id not in self._inlining:
+            self._inlining.add(v.id)
+            try:
+                return self.flat(self.local_strs[v.id])
+            finally:
+                self._inlining.discard(v.id)
         d = dotted_name(v)
         if d:
             c = self.canon(d)
@@ -199,6 +231,10 @@ class Flattener:
                     return [Seg('label', s, v, spec, obj=c.rsplit('.', 1)[0])]
         if isinstance(v, ast.Call) and dotted_name(v.func) == 'str' and len(v.args) == 1:
             return self.hole(v.args[0], spec)
+        if isinstance(v, ast.Call) and not spec:
+            lab = self._label_call(v)
+            if lab is not None:
+                return lab
         if isinstance(v, ast.IfExp):
             # conditional hole: both arms are possible renderings; keep as one value hole on the numeric arm
             pass
